@@ -393,4 +393,12 @@ impl<H: Host> Emulator<H> {
     pub fn verif_set_paging(&mut self, value: u8) {
         self.controller.verif_set_paging(value);
     }
+
+    /// Next stereo sample taken straight from the AY chip behind the ports (no mixer)
+    #[cfg(all(feature = "sound", feature = "ay"))]
+    pub fn verif_ay_sample(&mut self) -> (f64, f64) {
+        use crate::zx::sound::sample::SampleGenerator;
+        let sample = self.controller.mixer.ay.gen_sample();
+        (sample.left, sample.right)
+    }
 }
